@@ -564,3 +564,156 @@ pub fn add(run: &mut Run, kf: &KnownFindings, tier: &str) {
     }
     run.assumptions.push("versionx: sources are in-memory vectors whose version and contents the harness sets together (a source rebuilt under another version has other contents); the vector's own import version is fixed".into());
 }
+
+// ---------------------------------------------------------------------------------------
+// chains: a computed column as the source of another computed column
+// ---------------------------------------------------------------------------------------
+
+#[derive(Debug, Clone, Copy, PartialEq, Eq)]
+enum ChainOp {
+    /// the root source is rebuilt under version v (its contents depend on v)
+    Root(u32),
+    /// compute the first-level column from the root, starting at 0 or at its current length
+    B(bool),
+    /// compute the second-level column from the first-level one
+    C(bool),
+    Reimport,
+}
+
+/// All histories up to `depth` over root versions, computes of a first-level and a
+/// second-level EagerVec (incremental or from 0) and re-imports. Oracle (C19: version changes
+/// propagate, results of different input versions are never mixed): after every compute of a
+/// column, its stored contents equal its function applied to the *current* contents of its
+/// source — the source's contents only ever change together with its version here, so a
+/// column that keeps old results has missed a version change.
+pub fn chains(run: &mut Run, kf: &KnownFindings, tier: &str) {
+    let classify = kf.classifier("C19");
+    let depth = if tier == "quick" { 5 } else { 7 };
+    let root = Scratch::new("versionx-chain");
+    let alphabet = [ChainOp::Root(1), ChainOp::Root(2), ChainOp::B(false), ChainOp::B(true), ChainOp::C(false), ChainOp::C(true), ChainOp::Reimport];
+    let mut histories = 0u64;
+    let mut steps = 0u64;
+    let mut found: BTreeMap<String, (Vec<String>, String)> = BTreeMap::new();
+    let mut outcomes: HashSet<u64> = HashSet::new();
+    let mut stack: Vec<Vec<ChainOp>> = vec![vec![]];
+    while let Some(hist) = stack.pop() {
+        histories += 1;
+        steps += hist.len() as u64;
+        let dir = root.sub("h");
+        let r = guarded(|| -> Result<(u64, Option<(String, String)>), String> {
+            let exit = Exit::new();
+            let a = Src::new();
+            a.set(1, 4, 1);
+            let open = |dir: &Path| -> Result<(Database, EagerVec<BytesVec<usize, u64>>, EagerVec<BytesVec<usize, u64>>), String> {
+                let db = Database::open(dir).map_err(|e| format!("{e:?}"))?;
+                let b = EagerVec::<BytesVec<usize, u64>>::import(&db, "b", Version::ONE).map_err(|e| format!("{e:?}"))?;
+                let c = EagerVec::<BytesVec<usize, u64>>::import(&db, "c", Version::ONE).map_err(|e| format!("{e:?}"))?;
+                Ok((db, b, c))
+            };
+            let (mut db, mut b, mut c) = open(&dir)?;
+            let mut bad = None;
+            for (i, op) in hist.iter().enumerate() {
+                let last = i + 1 == hist.len();
+                match op {
+                    ChainOp::Root(v) => a.set(*v, 4, 1),
+                    ChainOp::B(incremental) => {
+                        let mf = if *incremental { b.len() } else { 0 };
+                        b.compute_transform(mf, &a, |(i, v, _)| (i, v * 2 + 1), &exit).map_err(|e| format!("compute b: {e:?}"))?;
+                        let want: Vec<u64> = a.get().iter().map(|v| v * 2 + 1).collect();
+                        if last && b.collect() != want {
+                            bad = Some(("chain|first_level|stale_results_kept".to_string(), format!("first-level column {:?}, its source now gives {:?}", b.collect(), want)));
+                        }
+                    }
+                    ChainOp::C(incremental) => {
+                        let mf = if *incremental { c.len() } else { 0 };
+                        c.compute_transform(mf, &b, |(i, v, _)| (i, v + 7), &exit).map_err(|e| format!("compute c: {e:?}"))?;
+                        let want: Vec<u64> = b.collect().iter().map(|v| v + 7).collect();
+                        if last && c.collect() != want {
+                            bad = Some((
+                                "chain|second_level|stale_results_kept".to_string(),
+                                format!("second-level column {:?}, but its source (the first-level column) now holds values that give {:?}", c.collect(), want),
+                            ));
+                        }
+                    }
+                    ChainOp::Reimport => {
+                        b.flush().map_err(|e| format!("{e:?}"))?;
+                        c.flush().map_err(|e| format!("{e:?}"))?;
+                        db.flush().map_err(|e| format!("{e:?}"))?;
+                        drop(b);
+                        drop(c);
+                        drop(db);
+                        let t = open(&dir)?;
+                        db = t.0;
+                        b = t.1;
+                        c = t.2;
+                    }
+                }
+            }
+            Ok((hash64(&(b.collect(), c.collect(), format!("{:?}", b.version()), format!("{:?}", c.version()))), bad))
+        });
+        let shown: Vec<String> = hist.iter().map(|o| format!("{o:?}")).collect();
+        match r {
+            Err(p) => {
+                found.entry(format!("chain|panic|{}", p.split(": ").next().unwrap_or("?"))).or_insert((shown, p));
+                continue;
+            }
+            Ok(Err(e)) => {
+                found.entry(format!("chain|error|{}", e.split(':').next().unwrap_or("?"))).or_insert((shown, e));
+                continue;
+            }
+            Ok(Ok((obs, bad))) => {
+                outcomes.insert(obs);
+                if let Some((sig, detail)) = bad {
+                    found.entry(sig).or_insert((shown, detail));
+                    continue;
+                }
+            }
+        }
+        if hist.len() < depth {
+            for op in alphabet {
+                // a re-import right after a re-import, or a root rebuilt twice in a row, adds nothing
+                if matches!((hist.last(), op), (Some(ChainOp::Reimport), ChainOp::Reimport) | (Some(ChainOp::Root(_)), ChainOp::Root(_))) {
+                    continue;
+                }
+                let mut h = hist.clone();
+                h.push(op);
+                stack.push(h);
+            }
+        }
+    }
+    eprintln!("  [versionx chains depth {depth}] histories={histories} distinct_outcomes={} found={}", outcomes.len(), found.len());
+    run.cov_add("states", outcomes.len() as u64);
+    run.cov_add("transitions", steps);
+    run.cov_add("traces_validated_against_impl", histories);
+    run.cov_add("evaluations", histories);
+    run.cov_add("distinct_nontrivial", outcomes.len() as u64);
+    let mut e = run.coverage.remove("explorations").unwrap_or_else(|| json!([]));
+    e.as_array_mut().unwrap().push(json!({
+        "label": "versionx/chains",
+        "what": "root source with settable version -> first-level EagerVec (compute_transform) -> second-level EagerVec (compute_transform over the first); all histories over {rebuild root under version 1 / 2, compute first level from 0 / incrementally, compute second level from 0 / incrementally, flush + re-import}",
+        "depth": depth,
+        "histories_executed": histories,
+        "distinct_outcomes": outcomes.len(),
+    }));
+    run.cov("explorations", e);
+    for (sig, (shown, detail)) in found {
+        let v = Violation {
+            property: "C19".into(),
+            signature: sig,
+            detail,
+        };
+        let d = classify(&v);
+        if d == Disposition::Ignore {
+            continue;
+        }
+        run.add_found(
+            Found {
+                path: vec![],
+                shown,
+                violation: v,
+                known: d == Disposition::Known,
+            },
+            json!({"engine": "versionx", "label": "chains"}),
+        );
+    }
+}
